@@ -22,7 +22,7 @@ META = {
     "bounds": ["unit: all 2^3 flag combinations x MAC verdict x user match x 3 PDU kinds x 2 payload forms x 3 credential levels",
                "end to end: authentic responses for get and the 2nd request of a walk, MD5 / SHA-1, authNoPriv / authPriv",
                "substitution: every position (quick: positions 0..79 stride per job) x {8 single-bit flips, 0x00, 0xFF, 0x80, 0x30, 0x04} (thorough: all 256 values)",
-               "every truncation point", "flags 0..7", "digest in {right, other key, other user's key, zeroed, empty, 11 octets}"],
+               "every truncation point", "flags 0..7", "digest in {right, other key, other user's key, zeroed, empty, 11 octets}", "forged content combined with a zero / wrong-key / authentic / empty digest field (thorough: every one-octet digest)"],
     "outside": ["forgery of HMAC-MD5-96 / HMAC-SHA-96 itself (ideal-MAC assumption at the unit level)", "replay of old authentic messages (timeliness is C12)",
                 "two or more simultaneous substitutions"],
     "stubs": ["unit level: usm.auth.create -> ideal MAC; usm.priv.create -> recording identity cipher", "end to end: sender = trampoline, privacy = harness stream cipher, x690.decode call budget (non-termination counts as an exception here, see C20)"],
@@ -121,7 +121,7 @@ def flags_position(resp):
     return hdr[2][2]
 
 
-def make_e2e(kind, op, attack, pos_lo=0, pos_hi=0, all_values=False):
+def make_e2e(kind, op, attack, pos_lo=0, pos_hi=0, all_values=False, sign_top=3):
     which = 2 if op == "walk" else 1   # which authenticated exchange is attacked (after discovery)
 
     def run(world):
@@ -191,7 +191,9 @@ def make_e2e(kind, op, attack, pos_lo=0, pos_hi=0, all_values=False):
                     return ber.enc_v3_msg(msg.msg_id, msg.max_size, msg.flags, 3, usm_raw, data)
                 if attack in ("identity", "plaintext", "report"):
                     sel = choose(a, 0, 3)
-                    sign = choose(b, 0, 2)   # 0 unsigned (zero digest), 1 signed with a wrong key, 2 authentic digest kept
+                    # 0 unsigned (zero digest), 1 signed with a wrong key, 2 authentic digest kept,
+                    # 3 empty digest field, 4.. a one-octet digest guess (value sign - 4)
+                    sign = choose(b, 0, sign_top)
                     flags = msg.flags
                     user_name, engine_id = msg.usm.user, msg.usm.engine_id
                     data = resp[msg.data_span[0]:msg.data_span[1]]
@@ -214,6 +216,10 @@ def make_e2e(kind, op, attack, pos_lo=0, pos_hi=0, all_values=False):
                     auth_field = b"\x00" * 12 if flags % 2 == 1 or sign else b""
                     if sign == 2:
                         auth_field = msg.usm.auth
+                    elif sign == 3:
+                        auth_field = b""
+                    elif sign >= 4:
+                        auth_field = bytes([sign - 4])
                     usm_raw = ber.enc_usm(engine_id, msg.usm.boots, msg.usm.time, user_name, auth_field, priv_params)
                     forged = ber.enc_v3_msg(msg.msg_id, msg.max_size, flags, 3, usm_raw, data)
                     if sign == 1 and len(auth_field) == 12:
@@ -284,6 +290,7 @@ def jobs(tier):
             out.append(Job(f"e2e-{kind}-{op}-digest", make_e2e(kind, op, "digest"), [Arg("sel", 0, 5), Arg("unused", 0, 0)],
                            timeout=300, mode="E/concolic-window", functions=ef))
             for attack in ("identity", "plaintext", "report"):
-                out.append(Job(f"e2e-{kind}-{op}-{attack}", make_e2e(kind, op, attack), [Arg("sel", 0, 3), Arg("sign", 0, 2)],
-                               timeout=300, mode="E/concolic-window", functions=ef))
+                top = 3 if (quick or attack != "plaintext") else 4 + 255
+                out.append(Job(f"e2e-{kind}-{op}-{attack}", make_e2e(kind, op, attack, sign_top=top), [Arg("sel", 0, 3), Arg("sign", 0, top)],
+                               timeout=300 if quick else 1200, mode="E/concolic-window", functions=ef, sample_every=7))
     return out
